@@ -93,7 +93,7 @@ partial def loop (h : IO.FS.Stream) (out : IO.FS.Stream) (d : D) : IO Unit := do
     loop h out { k := k.toNat!, have_ := true }
   | ["w", seed, id, w, hh, ty] =>
     if !d.have_ then out.putStrLn "bad-op"; loop h out d
-    else if d.finalized then out.putStrLn "illformed"; loop h out d
+    else if d.finalized || d.failed then out.putStrLn "illformed"; loop h out d
     else
       let f := mkFrame seed.toNat! id.toNat! w.toNat! hh.toNat! (SampleType.ofCode ty.toNat!)
       out.putStrLn "w ok"
